@@ -1156,4 +1156,108 @@ theorem forall2_length {α β} {R : α → β → Prop} : ∀ {l₁ : List α} {
   | _, _, .nil => rfl
   | _, _, .cons _ h => by simp [forall2_length h]
 
+/-! ### arbitrary bytes (C05) -/
+
+/-- whatever the bytes, `bufr_get_desc_value` keeps the descriptor and its encoding -/
+theorem getDescValue_preserves (r : R) (n : Node) (r' : R) (n' : Node) (h : getDescValue r n = some (r', n')) :
+    n'.desc = n.desc ∧ n'.enc = n.enc := by
+  have hm := mkvalNode_enc n
+  unfold getDescValue at h
+  by_cases hs : n.flags.skipped = true
+  · simp only [hs, if_true, Option.some.injEq, Prod.mk.injEq] at h
+    obtain ⟨_, rfl⟩ := h; exact ⟨rfl, rfl⟩
+  · simp only [hs, Bool.false_eq_true, if_false] at h
+    by_cases hv : (mkvalNode n).val.isSome = true
+    · simp only [hv, Bool.not_true, Bool.false_eq_true, if_false] at h
+      -- associated field step
+      generalize haf : (if (mkvalNode n).enc.afNbits > 0 ∧ (mkvalNode n).afW > 0 then
+          (let (v, e, r') := r.getbits (mkvalNode n).afW
+           if e < 0 then none else some (r', { mkvalNode n with afBits := v }))
+        else some (r, mkvalNode n)) = afr at h
+      cases afr with
+      | none => simp at h
+      | some p =>
+        obtain ⟨r1, n2⟩ := p
+        have hn2 : n2.desc = n.desc ∧ n2.enc = n.enc := by
+          by_cases ha : (mkvalNode n).enc.afNbits > 0 ∧ (mkvalNode n).afW > 0
+          · rw [if_pos ha] at haf
+            simp only at haf
+            split at haf
+            · simp at haf
+            · simp only [Option.some.injEq, Prod.mk.injEq] at haf
+              obtain ⟨_, rfl⟩ := haf
+              exact ⟨hm.2, hm.1⟩
+          · rw [if_neg ha] at haf
+            simp only [Option.some.injEq, Prod.mk.injEq] at haf
+            obtain ⟨_, rfl⟩ := haf
+            exact ⟨hm.2, hm.1⟩
+        simp only at h
+        cases ht : n2.enc.type <;> simp only [ht] at h
+        all_goals first
+          | (simp only [Option.some.injEq, Prod.mk.injEq] at h; obtain ⟨_, rfl⟩ := h; exact hn2)
+          | (split at h
+             · simp at h
+             · simp only [Option.some.injEq, Prod.mk.injEq] at h; obtain ⟨_, rfl⟩ := h; exact hn2)
+          | (split at h
+             · simp at h
+             · split at h <;>
+               (simp only [Option.some.injEq, Prod.mk.injEq] at h; obtain ⟨_, rfl⟩ := h; exact hn2))
+    · simp only [hv, Bool.not_false, if_true, Option.some.injEq, Prod.mk.injEq] at h
+      obtain ⟨_, rfl⟩ := h
+      exact ⟨hm.2, hm.1⟩
+
+/-- **C05, static templates, arbitrary bytes.**  Whatever bytes the reader holds — truncated,
+random, hostile — the subset loop over a static layout ends normally: it never dereferences a
+missing node (`XErr.null`), never runs out of fuel once `fuel > |nodes|` (the number of iterations is
+the number of nodes, not something the data claim), and returns every node of the list; it either
+completes or stops at the first premature end of data. -/
+theorem decodeSubsetLoop_static_any (T : Tables) (edition s4max : Nat) :
+    ∀ (nodes : List Node) (fuel : Nat) (ddo : DDO) (st : DecSt) (done : List Node),
+    nodes.length < fuel → staticOK T edition ddo nodes = true →
+    ∃ st' out fin, decodeSubsetLoop T edition s4max fuel ddo st done nodes = .ok (st', out, fin) ∧
+      (fin = .complete ∨ fin = .shortRead) ∧ out.length = done.length + nodes.length := by
+  intro nodes
+  induction nodes with
+  | nil =>
+    intro fuel ddo st done hf _
+    cases fuel with
+    | zero => simp at hf
+    | succ f => exact ⟨st, done.reverse, .complete, by simp [decodeSubsetLoop], Or.inl rfl, by simp⟩
+  | cons n ns ih =>
+    intro fuel ddo st done hf hok
+    cases fuel with
+    | zero => simp at hf
+    | succ f =>
+    simp only [staticOK, Bool.and_eq_true, decide_eq_true_eq, Bool.not_eq_true', Bool.not_eq_eq_eq_not,
+      Bool.not_true] at hok
+    obtain ⟨⟨⟨⟨hfix, herr⟩, hnc⟩, hnd⟩, hrest⟩ := hok
+    unfold decodeSubsetLoop
+    generalize ha : applyTables2node T edition ddo n = a at hfix herr hrest
+    obtain ⟨ddo1, n1, err⟩ := a
+    simp only at hfix herr hrest
+    subst hfix
+    subst herr
+    simp only [Bool.or_false]
+    by_cases hsk : n1.flags.skipped = true
+    · rw [if_pos hsk]
+      obtain ⟨st', out, fin, e, hfin, hlen⟩ := ih f ddo1 st (n1 :: done) (by simp at hf; omega) hrest
+      exact ⟨st', out, fin, e, hfin, by rw [hlen]; simp; omega⟩
+    · rw [if_neg hsk]
+      cases hg : getDescValue st.r n1 with
+      | none =>
+        exact ⟨{ st with invalid := true }, done.reverse ++ n1 :: ns, .shortRead, by simp, Or.inr rfl, by simp⟩
+      | some p =>
+        obtain ⟨r2, n2⟩ := p
+        obtain ⟨hd, he⟩ := getDescValue_preserves st.r n1 r2 n2 hg
+        simp only
+        have hcr : applyOpCrefval T ddo1 n2 = ddo1 := by
+          unfold applyOpCrefval; rw [he]; simp [hnc]
+        rw [hcr]
+        have hsk' : n1.flags.skipped = false := by simpa using hsk
+        have hnd' : ¬ (Desc.f n2.desc = 1 ∧ Desc.y n2.desc = 0) := by
+          rw [hd]; intro ⟨h1, h2⟩; simp [h1, h2, hsk'] at hnd
+        rw [if_neg hnd']
+        obtain ⟨st', out, fin, e, hfin, hlen⟩ := ih f ddo1 { st with r := r2 } (n2 :: done) (by simp at hf; omega) hrest
+        exact ⟨st', out, fin, e, hfin, by rw [hlen]; simp; omega⟩
+
 end Bufr
